@@ -94,6 +94,37 @@ let run_fold () =
   done with End_of_file -> ());
   Printf.printf "SUMMARY cases=%d runs=%d mismatches=%d nontrivial=%d propviol=0\n" !n !n !mism !nontrivial
 
+(* ---- engine-level equivalence under i (C10): backreference, literal, class, negated class ---- *)
+let known29 c =
+  c = 0x131 || c = 0x17F || (c >= 0x1F80 && c <= 0x1F87) || (c >= 0x1F90 && c <= 0x1F97) || (c >= 0x1FA0 && c <= 0x1FA7)
+  || c = 0x1FB3 || c = 0x1FC3 || c = 0x1FF3
+let run_foldeq () =
+  let n = ref 0 and mism = ref 0 and pviol = ref 0 and nontrivial = ref 0 in
+  (try while true do
+    let line = input_line stdin in
+    match split line with
+    | "E" :: u :: c :: d :: br :: lit :: cls :: ncls :: _ ->
+      incr n;
+      let ub = (u = "1") in
+      let ci = ios c and di = ios d in
+      let cn = n_of_int ci and dn = n_of_int di in
+      let model_eq = (fold_code_point cn ub = fold_code_point dn ub) in
+      let ref_eq = (canon_ref ub cn = canon_ref ub dn) in
+      if model_eq && ci <> di then incr nontrivial;
+      let b x = (x = "1") in
+      let impl_ok e = (b br = e && b lit = e && b cls = e && b ncls = not e && br <> "2" && lit <> "2" && cls <> "2" && ncls <> "2") in
+      if not (impl_ok model_eq) then begin
+        incr mism;
+        Printf.printf "MISMATCH stage=S7-foldeq unicode=%s c=%d d=%d impl=br:%s,lit:%s,cls:%s,ncls:%s model_equivalent=%b\n" u ci di br lit cls ncls model_eq end;
+      if not (impl_ok ref_eq) && not ((not ub) && (known29 ci || known29 di)) then begin
+        incr pviol;
+        Printf.printf "PROPVIOL prop=C10 case=U+%04X,U+%04X flags=%s detail=backref:%s,literal:%s,class:%s,negclass:%s,reference_equivalent:%b\n"
+          ci di (if ub then "iu" else "i") br lit cls ncls ref_eq end
+    | [] -> ()
+    | _ -> failwith ("bad line: " ^ line)
+  done with End_of_file -> ());
+  Printf.printf "SUMMARY cases=%d runs=%d mismatches=%d nontrivial=%d propviol=%d\n" !n !n !mism !nontrivial !pviol
+
 (* ---- property lookup stream (C11) ---- *)
 (* OCaml string -> the extracted Coq string (EmptyString | String of ascii * string, ascii = 8 booleans) *)
 let coq_string (s : string) : Model.string =
